@@ -392,7 +392,7 @@ FWD = {
     ("trie.smt:SparseMerkleTree.from_db", "trie.smt:SparseMerkleTree.__init__", "default"): "same",
 }
 FWD_PROPS = {"C12": "trie/binary.py", "C13": "trie/branches.py", "C03": "trie/hexary.py", "C14": "trie/smt.py", "C15": "trie/smt.py"}
-FWD_MIN = {"C12": 5, "C13": 1, "C03": 4, "C14": 2, "C15": 2}
+FWD_MIN = {"C12": 5, "C13": 1, "C03": 2, "C14": 2, "C15": 2}
 
 
 @rule("FWD", sorted(FWD_PROPS))
